@@ -325,6 +325,78 @@ theorem ambient_strict_exact {pas : List PA} (hu : UniqueKeys pas) (hp : AllPort
     simp only [effAbs, summary, modeOf, Option.map_some, inheritOpt, beq_iff_eq]
     cases p.ports.lookup port <;> rfl
 
+/-! ## No dangling reference -/
+
+/-- Whenever the keys reference the converted workload policy, the conversion emits one (summary form). -/
+def danglingTable : Bool :=
+  allOpt.all fun meshM => allOpt.all fun nsM => allModes.all fun wlM => allSums.all fun s =>
+    !s.consistent || !(keysAbs meshM nsM wlM s).ref || (convAbs wlM nsM meshM s).isSome
+
+theorem danglingTable_true : danglingTable = true := by decide +kernel
+
+theorem ref_imp_conv_some (meshM nsM : Option PMode) (wlM : PMode) (s : PSum) (hc : s.consistent = true)
+    (hr : (keysAbs meshM nsM wlM s).ref = true) : (convAbs wlM nsM meshM s).isSome = true := by
+  have h := danglingTable_true
+  unfold danglingTable at h
+  simp only [List.all_eq_true] at h
+  have := h meshM (mem_allOpt _) nsM (mem_allOpt _) wlM (mem_allModes _) s (mem_allSums _)
+  simpa [hc, hr] using this
+
+/-- What `PeerAuthDerivedPolicies` sends for the specification's workload policy. -/
+theorem derived_of_wlPolicy {pas : List PA} (hu : UniqueKeys pas) (root : String) (w : Workload) {p : PA}
+    (hw : wlPolicy pas root w = some p) :
+    p ∈ pas ∧ derivedPolicyG Fixes.all root pas p =
+      convCore Fixes.all p.mtls p.ports (modeOf (nsPolicy pas root w.ns)) (modeOf (meshPolicy pas root)) := by
+  have hwp := root_selector_policy_ignored hw
+  have hmem : p ∈ pas.filter (fun q => !q.nsLevel && q.ns == w.ns && selects q w) := by
+    unfold wlPolicy at hw
+    split at hw
+    · cases hw
+    · exact (oldest_spec hw).1
+  have hpm : p ∈ pas := (List.mem_filter.mp hmem).1
+  have hpns : p.ns = w.ns := by
+    have := (List.mem_filter.mp hmem).2
+    simp only [Bool.and_eq_true, beq_iff_eq] at this
+    exact this.1.2
+  have hwr : w.ns ≠ root := hpns ▸ hwp.1
+  refine ⟨hpm, ?_⟩
+  unfold derivedPolicyG convertPAG
+  rw [hpns, derived_nsCfg hu root w.ns hwr, derived_rootCfg hu root]
+  have h1 : (w.ns == root) = false := by simp [hwr]
+  simp only [h1, selNilG_all, hwp.2.1, Bool.false_or]
+  cases hpe : p.ports with
+  | nil => simp [convCore_nil]
+  | cons e t => simp
+
+/-- **no_dangling.**  A workload never references a converted PeerAuthentication policy that istiod
+    does not send (on the pinned tree it did: F2, F10 - the reference replaced the static STRICT
+    policy and pointed at nothing). -/
+theorem no_dangling {pas : List PA} (hu : UniqueKeys pas) (hp : AllPortsNodup pas) (root : String)
+    (w : Workload) (p : PA) (hk : (ambientKeys root (ambientFetch root pas w)).wl = some p) :
+    derivedPolicy root pas p ≠ none := by
+  unfold ambientKeys ambientKeysG at hk
+  rw [ambientSel_spec hu root w] at hk
+  unfold keysOfSel at hk
+  cases hw : wlPolicy pas root w with
+  | none => simp [hw] at hk
+  | some q =>
+    simp only [hw] at hk
+    have hd := derived_of_wlPolicy hu root w hw
+    cases hr : (keysCore Fixes.all (modeOf (meshPolicy pas root)) (modeOf (nsPolicy pas root w.ns)) q.mtls q.ports).ref with
+    | false => simp [hr] at hk
+    | true =>
+      simp only [hr, if_true, Option.some.injEq] at hk
+      subst hk
+      have hbridge := conv_bridge (hp q hd.1) q.mtls (modeOf (nsPolicy pas root w.ns)) (modeOf (meshPolicy pas root)) 0
+      rw [keysCore_eq_abs _ _ _ _ 0] at hr
+      have hsome := ref_imp_conv_some _ _ _ _ (summary_consistent q.ports 0) hr
+      show derivedPolicyG Fixes.all root pas q ≠ none
+      rw [hd.2]
+      intro hnone
+      rw [hnone, Option.map_none] at hbridge
+      rw [← hbridge] at hsome
+      cases hsome
+
 /-- The statement of `ambient_strict_exact` for a given set of repairs. -/
 def StrictExactFor (fx : Fixes) : Prop :=
   ∀ (pas : List PA) (root : String) (w : Workload) (port : Nat), UniqueKeys pas → AllPortsNodup pas →
